@@ -113,7 +113,7 @@ def check_ties(pid):
     out = {}
     for which in TIED[pid]:
         try:
-            out[which] = check_tie(REPO, which)
+            out[which] = check_tie(REPO, which, tag=pid)   # one directory per property: checks may run concurrently
         except Exception as e:
             out[which] = {"ok": False, "stage": "tie machinery failed", "log": "%s: %s" % (type(e).__name__, e), "lemmas": [], "assumptions": {}}
     return out
